@@ -29,6 +29,10 @@ def main(tier, args):
     for mode in ("echo", "noecho", "quiet"):
         for pre in (19, 0):
             jobs.append(("editor:%s:prefill%d" % (mode, pre), [editor, mode, str(ed_depth), str(pre)]))
+    # the other three byte encodings of Enter (bare CR, bare LF, CR NUL), one key per segment
+    for enter in ("cr", "lf", "crnul"):
+        for mode, pre in (("echo", 0), ("noecho", 19)):
+            jobs.append(("editor:%s:prefill%d:enter-%s" % (mode, pre, enter), [editor, mode, str(ed_depth), str(pre)], {"C13_ENTER": enter}))
     for m, flen, nshard in (("direct", fe_len, 6), ("sock", fe_len_sock, 1 if quick else 6)):
         for s in range(nshard):
             for f in ("telnetd", "tcprpc"):
